@@ -10,8 +10,8 @@ func init() {
 		Technique:   "fault-injection property-based testing (rapid + testing/synctest) with a scripted peer and a delivery model",
 		DesignRef:   "DESIGN.md section 3, C09",
 		Runs: []run{
-			{Test: "TestC09_Call", Quick: 2500, Thorough: 30000},
-			{Test: "TestC09_Standalone", Quick: 800, Thorough: 10000},
+			{Test: "TestC09_Call", Quick: 2500, Thorough: 240000},
+			{Test: "TestC09_Standalone", Quick: 800, Thorough: 80000},
 		},
 	})
 }
